@@ -116,10 +116,13 @@ def _build(kind, shape, case, rng):
         which = case['seed'] % 2
         xr = x.real.contiguous()
 
+        nd_ = len(shape)
+
         def f(d, new=None, orig_perm=None):
+            # every axis has its own width, which travels with the axis through every encoding and order of dims
             if which == 0:
-                return gaussian_filter(xr, [1.0] * len(d), d, truncate=1)
-            return uniform_filter(xr, [3] * len(d), d)
+                return gaussian_filter(xr, [0.6 + 0.55 * (di % nd_) for di in d], d, truncate=2)
+            return uniform_filter(xr, [(3, 1, 5, 3)[di % nd_] for di in d], d)
         return x, f
     if kind == 'wavelet':
         name = ('haar', 'db2', 'sym3')[case['seed'] % 3]
@@ -139,7 +142,11 @@ def _build(kind, shape, case, rng):
 
         def f(d, new=None, orig_perm=None):
             fn = cls(weight=2.0, target=1.0, dim=tuple(d), divide_by_n=div, keepdim=keep)
-            return (fn(x)[0], fn.prox(x, 0.5)[0])
+            out = (fn(x)[0], fn.prox(x, 0.5)[0])
+            if len(d) == 1:  # a single axis may be given as a bare integer
+                fi = cls(weight=2.0, target=1.0, dim=int(d[0]), divide_by_n=div, keepdim=keep)
+                out = (*out, fi(x)[0], fi.prox(x, 0.5)[0])
+            return out
         return x, f
     if kind == 'sliding':
         from mrpro.utils.sliding_window import sliding_window
